@@ -456,10 +456,17 @@ impl Session {
             ["render"] => {
                 // the three renderers must return (Ok or Err) whatever the program did
                 let ax = self.ax();
-                let _ = ax.trace();
-                let _ = ax.call_stack();
+                let t = ax.trace();
+                let c = ax.call_stack();
                 let _ = ax.to_string();
-                Some("ok".into())
+                if ERRTEXT.load(std::sync::atomic::Ordering::Relaxed) {
+                    // C20: the rendered trace and call stack (symbol names, order, indentation) must not vary between runs;
+                    // to_string() prints every register, written or not, and is only exercised
+                    let text = format!("{:?}|{:?}", t.map_err(|e| e.to_string()), c.map_err(|e| e.to_string()));
+                    Some(format!("ok msg={:016x}", fnv64(text.as_bytes())))
+                } else {
+                    Some("ok".into())
+                }
             }
             ["log"] => HOOK_LOG.with(|l| {
                 let l = l.borrow();
@@ -543,6 +550,19 @@ impl Session {
                 let (argv, envp) = (conv(argv)?, conv(envp)?);
                 Some(match self.ax().init_stack_program_start(n, argv, envp) {
                     Ok(a) => format!("ok {:x}", a),
+                    Err(e) => err_out(&e),
+                })
+            }
+            ["cpreg", dst, src, delta] => {
+                // dst := src + delta (wrapping): lets a case use a value the run itself produced (a returned break, …)
+                let (d, sr) = (reg_by_name(dst)?, reg_by_name(src)?);
+                let delta = parse_hex(delta)?;
+                let ax = self.ax();
+                Some(match ax.reg_read_64(sr) {
+                    Ok(v) => match ax.reg_write_64(d, v.wrapping_add(delta)) {
+                        Ok(()) => format!("ok {:x}", v.wrapping_add(delta)),
+                        Err(e) => err_out(&e),
+                    },
                     Err(e) => err_out(&e),
                 })
             }
